@@ -27,13 +27,14 @@ class Scenario:
 
     def __init__(self, project="5f1a2b3c4d5e6f7a8b9c0d1e", cluster="Cluster0", conn_hosts=("h1.example.net:27017",), payloads=None,
                  auth="digest", faults=None, public="pubkeyAB", private="priv-KEY/with+chars=and space", srv=None, conn_string=None,
-                 cluster_body=None):
+                 cluster_body=None, chunked=False):
         self.project, self.cluster, self.conn_hosts = project, cluster, list(conn_hosts)
         self.payloads = payloads or {}
         self.auth, self.faults = auth, dict(faults or {})
         self.public, self.private = public, private
         self.conn_string = conn_string
         self.cluster_body = cluster_body
+        self.chunked = chunked        # log bodies are streamed (Transfer-Encoding: chunked, no Content-Length)
         self.srv = srv
 
     def standard(self):
@@ -243,6 +244,15 @@ class FakeAtlas:
                 except Exception:
                     pass
                 return False
+            if sc.chunked:
+                hs = "HTTP/1.1 200 OK\r\nContent-Type: application/vnd.atlas.2023-02-01+gzip\r\nTransfer-Encoding: chunked\r\n\r\n"
+                out = [hs.encode("latin-1")]
+                for i in range(0, len(body), 97):
+                    piece = body[i:i + 97]
+                    out.append(("%x\r\n" % len(piece)).encode() + piece + b"\r\n")
+                out.append(b"0\r\n\r\n")
+                sock.sendall(b"".join(out))
+                return True
             return send(200, body, ["Content-Type: application/vnd.atlas.2023-02-01+gzip"])
         return send(404, b"{}")
 
